@@ -262,6 +262,173 @@ theorem namesOK_of_wf {ps : Nat} {f : Field} (h : f.wf ps = true) : NamesOK f :=
     simp only [Field.wf, Bool.and_eq_true, beq_iff_eq] at h
     exact h.1.1.2
 
+/-! ### aggregates and typedefs, given the induction hypotheses -/
+
+theorem agg_rt (ps : Nat) (data : Bytes) (u packed : Bool) (fs : List Field) (hfields : FieldsRT ps data fs)
+    (hnd : (allNames fs).Nodup) (hok : ∀ f ∈ fs, NamesOK f) (kind : Kind) (hk : kind ≠ Kind.typedef)
+    (hku : (kind == Kind.union) = u) (hm : (Def.mk kind packed fs).modelled ps = true) :
+    ∀ pos v n m c, finishAgg ps u packed fs (unpackFields ps data pos u packed fs 0 []) = some (v, n, m, c) →
+      c = true →
+      packOne ps (.mk kind packed fs) v = some (canon m (data.drop pos)) ∧ m.length = n ∧
+        (∀ s, (Def.mk kind packed fs).sizeV ps = some s → n = s) := by
+  intro pos v n m c h hc
+  have hApos : 0 < (if packed then 1 else maxList (alignVs ps fs)) := by
+    have := (defRel ps _ hm).1
+    simpa [Def.alignV] using this
+  have hor : orOne (if packed then 1 else maxList (alignVs ps fs)) = (if packed then 1 else maxList (alignVs ps fs)) := by
+    unfold orOne; rw [if_neg (by omega)]
+  cases hu : unpackFields ps data pos u packed fs 0 [] with
+  | none => rw [hu] at h; simp [finishAgg] at h
+  | some r =>
+    obtain ⟨ns, res⟩ := r
+    rw [hu] at h
+    simp only [finishAgg, Option.some.injEq, Prod.mk.injEq] at h
+    obtain ⟨rfl, rfl, rfl, rfl⟩ := h
+    have hflags : ∀ r ∈ res, r.2.2.2 = true := by
+      intro r hr
+      exact List.all_eq_true.mp hc r hr
+    obtain ⟨p1, p2, p3, p4⟩ := hfields pos u packed 0 [] ns res hu hflags
+    obtain ⟨hcol, _⟩ := collect_unpackFields ps data pos u packed fs 0 [] ns res hu hnd hok
+    have hkt : (kind == Kind.typedef) = false := by
+      cases kind <;> simp_all
+    have hlen : (assemble u packed (if packed then 1 else maxList (alignVs ps fs))
+          (zipAligns ps fs (res.map (·.2.2.1)))).length
+        = padTail packed (if packed then 1 else maxList (alignVs ps fs))
+            (lenLoop ps u packed fs (res.map (fun r => some r.2.1)) 0) := by
+      rw [assemble_eq, padRes_length _ _ _ hApos]
+      congr 1
+      cases u
+      · simp only [Bool.false_eq_true, if_false]
+        have := assembleS_length ps packed fs res 0 p2 p3
+        omega
+      · simp only [if_true]
+        have := longest_length_union ps packed fs res 0 p2 p3
+        omega
+    refine ⟨?_, hlen, ?_⟩
+    · unfold packOne
+      simp only [hkt, Bool.false_eq_true, if_false, hcol, p1, hku]
+      rw [assemble_exp ps data pos u packed _ fs res p2 p3]
+    · intro s hs
+      simp only [Def.sizeV, hku, hor] at hs
+      split at hs
+      swap
+      · cases hs
+      rename_i sz0 hsl
+      simp only [Option.some.injEq] at hs
+      have hall := sizeLoop_all_some ps u packed fs 0 sz0 hsl
+      rw [p4 hall, lenLoop_static ps u packed fs 0 sz0 hsl, hs]
+
+theorem typedef_rt (ps : Nat) (data : Bytes) (f : Field) (ihf : FieldRT ps data f)
+    (hm : (Def.mk Kind.typedef false [f]).modelled ps = true) :
+    ∀ pos v n m c,
+      finishTypedef false (f.alignV ps) (unpackField ps data pos [] f) = some (v, n, m, c) → c = true →
+      packOne ps (.mk .typedef false [f]) v = some (canon m (data.drop pos)) ∧ m.length = n ∧
+        (∀ s, (Def.mk Kind.typedef false [f]).sizeV ps = some s → n = s) := by
+  intro pos v n m c h hc
+  have hA : maxList (alignVs ps [f]) = f.alignV ps := by simp [alignVs, maxList]
+  have hApos : 0 < f.alignV ps := by
+    have := (defRel ps _ hm).1
+    simpa [Def.alignV, hA] using this
+  have hor : orOne (f.alignV ps) = f.alignV ps := by unfold orOne; rw [if_neg (by omega)]
+  -- the member has a finite class-level size
+  have hfin : ∃ fsz, f.sizeV ps = some fsz := by
+    simp only [Def.modelled, Bool.and_eq_true] at hm
+    have h2 := hm.2
+    simp only [sizeLoop] at h2
+    cases hs : f.sizeV ps with
+    | none => rw [hs] at h2; simp at h2
+    | some fsz => exact ⟨fsz, rfl⟩
+  obtain ⟨fsz, hfsz⟩ := hfin
+  cases hu : unpackField ps data pos [] f with
+  | none => rw [hu] at h; simp [finishTypedef] at h
+  | some r =>
+    obtain ⟨v0, sz, m0, c0⟩ := r
+    rw [hu] at h
+    simp only [finishTypedef, Option.some.injEq, Prod.mk.injEq] at h
+    obtain ⟨rfl, rfl, rfl, rfl⟩ := h
+    obtain ⟨f1, f2, f3⟩ := ihf pos [] v0 sz m0 c0 hu hc
+    have hsz : sz = fsz := f3 fsz hfsz
+    have hge : sz ≤ padTail false (f.alignV ps) sz := by
+      unfold padTail; simp only []; split <;> omega
+    have hstatic : (Def.mk Kind.typedef false [f]).sizeV ps = some (padTail false (f.alignV ps) sz) := by
+      simp only [Def.sizeV, sizeLoop, hfsz, show (Kind.typedef == Kind.union) = false from rfl, Bool.not_false,
+        Bool.true_and, alignTo_zero, ite_self, Nat.zero_add, Bool.false_eq_true, if_false, hA, hor, hsz]
+      simp
+    refine ⟨?_, by simp [f2, zeros_length]; omega, fun s hs => by rw [hstatic] at hs; exact (Option.some.inj hs)⟩
+    -- the packed bytes
+    have hnotinst : (∀ ns l, v0 ≠ .inst ns l) →
+        packOne ps (.mk .typedef false [f]) v0
+          = some (padRes false (f.alignV ps) (canon m0 (data.drop pos))) := by
+      intro hni
+      have hku : (Kind.typedef == Kind.union) = false := rfl
+      cases v0 with
+      | inst ns l => exact absurd rfl (hni ns l)
+      | int i =>
+        simp only [packOne, packFields, f1, assemble_eq, hku, Bool.false_eq_true, if_false, assembleS, alignTo_zero,
+          Nat.sub_self, zeros, List.replicate_zero, List.nil_append, List.append_nil, hA, ite_self]
+      | bytes b =>
+        simp only [packOne, packFields, f1, assemble_eq, hku, Bool.false_eq_true, if_false, assembleS, alignTo_zero,
+          Nat.sub_self, zeros, List.replicate_zero, List.nil_append, List.append_nil, hA, ite_self]
+      | seq vs =>
+        simp only [packOne, packFields, f1, assemble_eq, hku, Bool.false_eq_true, if_false, assembleS, alignTo_zero,
+          Nat.sub_self, zeros, List.replicate_zero, List.nil_append, List.append_nil, hA, ite_self]
+      | dict kv =>
+        simp only [packOne, packFields, f1, assemble_eq, hku, Bool.false_eq_true, if_false, assembleS, alignTo_zero,
+          Nat.sub_self, zeros, List.replicate_zero, List.nil_append, List.append_nil, hA, ite_self]
+      | pyNone =>
+        simp only [packOne, packFields, f1, assemble_eq, hku, Bool.false_eq_true, if_false, assembleS, alignTo_zero,
+          Nat.sub_self, zeros, List.replicate_zero, List.nil_append, List.append_nil, hA, ite_self]
+    have hpad : padRes false (f.alignV ps) (canon m0 (data.drop pos))
+        = canon (m0 ++ zeros (padTail false (f.alignV ps) sz - sz)) (data.drop pos) := by
+      rw [canon_append_zeros]
+      unfold padRes padTail
+      simp only [Bool.false_eq_true, if_false, canon_length, f2, hor, Bool.not_false, Bool.true_and,
+        decide_eq_true_eq]
+      split
+      · congr 2; omega
+      · simp [zeros]
+    by_cases hinst : ∃ ns l, v0 = .inst ns l
+    · obtain ⟨ns, l, rfl⟩ := hinst
+      -- an instance: the member is a nested type, which packs itself; its size is a multiple of its alignment
+      cases f with
+      | nest nm ty count =>
+        have hcount : count = 0 := by
+          by_contra hne
+          simp [packField, hne] at f1
+        subst hcount
+        simp only [packField, if_true] at f1
+        have hmt : ty.modelled ps = true := by
+          have := (modelled_cons (modelled_def hm).1).1
+          simpa [Field.modelled] using this
+        have hts : ty.sizeV ps = some fsz := by
+          cases hq : ty.sizeV ps with
+          | none => simp [Field.sizeV, hq] at hfsz
+          | some q => simpa [Field.sizeV, hq] using hfsz
+        have hmod := sizeV_mod_alignV hmt hts
+        have hpt : padTail false (Field.alignV ps (.nest nm ty 0)) sz = sz := by
+          unfold padTail
+          simp only [Field.alignV, hsz, hmod, Nat.lt_irrefl, decide_false, Bool.and_false, Bool.false_eq_true,
+            if_false]
+        simp only [packOne, show (Kind.typedef == Kind.typedef) = true from rfl, if_true, f1, hpt, Nat.sub_self,
+          zeros, List.replicate_zero, List.append_nil]
+      | raw nm t be count =>
+        simp only [unpackField] at hu
+        obtain ⟨hu, _⟩ := withFlag_some hu
+        exact absurd hu unpackRaw_not_inst
+      | bits t be names sizes =>
+        have := unpackField_shape hu
+        obtain ⟨u, hu'⟩ := this
+        cases hu'
+      | bitsEx ty names sizes =>
+        have := unpackField_shape hu
+        obtain ⟨u, hu'⟩ := this
+        cases hu'
+      | var nm t be => simp [Field.sizeV] at hfsz
+      | cnt nm t be ct => simp [Field.sizeV] at hfsz
+      | bound nm t be ref => simp [Field.sizeV] at hfsz
+      | leb nm sg => simp [Field.sizeV] at hfsz
+    · rw [hnotinst (fun ns l e => hinst ⟨ns, l, e⟩), hpad]
+
 mutual
 theorem fieldRT (ps : Nat) (data : Bytes) : (f : Field) → f.wf ps = true → f.modelled ps = true → FieldRT ps data f
   | .raw nm t be count, _, _ => fieldRT_raw ps data nm t be count
@@ -325,37 +492,28 @@ theorem defRT (ps : Nat) (data : Bytes) : (d : Def) → d.wf ps = true → d.mod
     obtain ⟨hwfs, hnd, htd⟩ := wf_def hwf
     obtain ⟨hmfs, hne⟩ := modelled_def hm
     have ihs := fieldsRT ps data fs hwfs hmfs
-    have hApos : 0 < (if packed then 1 else maxList (alignVs ps fs)) := by
-      have := (defRel ps _ hm).1
-      simpa [Def.alignV] using this
-    have hor : orOne (if packed then 1 else maxList (alignVs ps fs)) = (if packed then 1 else maxList (alignVs ps fs)) := by
-      unfold orOne; rw [if_neg (by omega)]
-    intro pos v n m c h hc
-    simp only [unpackDef] at h
-    by_cases hk : kind = Kind.typedef
-    · -- typedef: the value of the single member
-      subst hk
+    have hok : ∀ f ∈ fs, NamesOK f := fun f hf => namesOK_of_wf (fieldsWf_mem fs hwfs f hf)
+    cases kind with
+    | struct =>
+      intro pos v n m c h hc
+      simp only [unpackDef] at h
+      exact agg_rt ps data false packed fs ihs hnd hok Kind.struct (by decide) rfl hm pos v n m c h hc
+    | union =>
+      intro pos v n m c h hc
+      simp only [unpackDef] at h
+      exact agg_rt ps data true packed fs ihs hnd hok Kind.union (by decide) rfl hm pos v n m c h hc
+    | typedef =>
       obtain ⟨hpk, hshape⟩ := htd rfl
       subst hpk
-      simp only [Bool.false_eq_true, if_false] at h hApos hor
-      sorry
-    · -- struct / union
-      have hkm : (match kind with
-          | Kind.typedef => (match fs with
-              | f :: _ => (match unpackField ps data pos [] f with
-                  | some (v, sz, m, c) => some (v, padTail packed (if packed then 1 else maxList (alignVs ps fs)) sz,
-                      m ++ zeros (padTail packed (if packed then 1 else maxList (alignVs ps fs)) sz - sz), c)
-                  | none => none)
-              | [] => none)
-          | _ => (match unpackFields ps data pos (kind == Kind.union) packed fs 0 [] with
-              | some (ns, res) => some (Val.inst ns (padTail packed (if packed then 1 else maxList (alignVs ps fs))
-                    (lenLoop ps (kind == Kind.union) packed fs (res.map (fun r => some r.2.1)) 0)),
-                  padTail packed (if packed then 1 else maxList (alignVs ps fs))
-                    (lenLoop ps (kind == Kind.union) packed fs (res.map (fun r => some r.2.1)) 0),
-                  assemble (kind == Kind.union) packed (if packed then 1 else maxList (alignVs ps fs))
-                    (zipAligns ps fs (res.map (·.2.2.1))), res.all (·.2.2.2))
-              | none => none)) = some (v, n, m, c) := h
-      sorry
+      match fs, hshape, hwfs, hmfs, hm, ihs with
+      | [], hshape, _, _, _, _ => simp [typedefShape] at hshape
+      | _ :: _ :: _, hshape, _, _, _, _ => simp [typedefShape] at hshape
+      | [f], _, hwfs, hmfs, hm, _ =>
+        have ihf := fieldRT ps data f (wf_cons hwfs).1 (modelled_cons hmfs).1
+        intro pos v n m c h hc
+        have h' : finishTypedef false (f.alignV ps) (unpackField ps data pos [] f) = some (v, n, m, c) := by
+          simpa [unpackDef, alignVs, maxList] using h
+        exact typedef_rt ps data f ihf hm pos v n m c h' hc
 theorem fieldsRT (ps : Nat) (data : Bytes) : (fs : List Field) → fieldsWf ps fs = true → fieldsModelled ps fs = true →
     FieldsRT ps data fs
   | [], _, _ => by
